@@ -266,6 +266,65 @@ func TestStagedStoreViews(t *testing.T) {
 }
 
 // ---------------------------------------------------------------------------------------------------------------
+// (g) staged store: shared keys through the parent and its views, linearizability oracle (lin_test.go)
+
+func drawLin(t *rapid.T) *Workload {
+	w := drawCommon(t, "lin")
+	l := &LinW{
+		Workers:   rapid.IntRange(2, 8).Draw(t, "goroutines"),
+		Views:     rapid.IntRange(1, 4).Draw(t, "views"),
+		UseRoot:   rapid.Bool().Draw(t, "useParent"),
+		Modules:   rapid.IntRange(1, 2).Draw(t, "modules"),
+		Keys:      rapid.IntRange(2, 8).Draw(t, "keysPerModule"),
+		BaseQ:     rapid.IntRange(1, 4).Draw(t, "storedQuarter"),
+		Rounds:    rapid.SampledFrom([]int{20, 40, 80}).Draw(t, "rounds"),
+		Ops:       rapid.SampledFrom([]int{8, 20, 50}).Draw(t, "ops"),
+		Owner:     rapid.IntRange(0, 2).Draw(t, "singleWriter") == 0,
+		ParkUs:    rapid.SampledFrom([]int{0, 50, 200, 200, 500}).Draw(t, "parkUs"),
+		ParkEvery: rapid.SampledFrom([]int{1, 1, 2, 3}).Draw(t, "parkEvery"),
+		Chase:     rapid.IntRange(1, 4).Draw(t, "chase"),
+		Yield:     rapid.IntRange(0, 2).Draw(t, "yield"),
+	}
+	for i := 0; i < 6; i++ {
+		l.Weights = append(l.Weights, rapid.IntRange(0, 6).Draw(t, "weight"))
+	}
+	l.Weights[linGet]++ // a first read of a stored key and a write are always possible
+	l.Weights[linSet]++
+	if l.Views < l.Modules {
+		l.UseRoot = true // every key needs a handle
+	}
+	w.Lin = l
+	return w
+}
+
+// linNontrivial: enough goroutines and calls, and the interleaving the oracle is there for really was produced at least ten
+// times: a Get/Has of a stored key that was called before any call on that key had returned (so it can be the one that
+// finds the key uncached and reads the store) overlapped a Set/Del of that key by another goroutine.
+func linNontrivial(w *Workload, o *outcome) bool {
+	if o.res == nil || !o.res.Done {
+		return false
+	}
+	total := int64(0)
+	for k, v := range o.res.Counters {
+		if strings.HasPrefix(k, "op:") {
+			total += v
+		}
+	}
+	return w.Lin.Workers >= 3 && total >= 1000 && o.res.Counters["stored-keys-first-read-overlapping-a-write"] >= 10
+}
+
+func TestStagedStoreLinearizable(t *testing.T) {
+	rapid.Check(t, func(t *rapid.T) {
+		w := drawLin(t)
+		o := runChild(w)
+		verdict(t, w, o)
+		l := w.Lin
+		evid.R.Case(keyOf(w), linNontrivial(w, o), sampleOf(w, o, nil), "lin", fmt.Sprintf("lin:single-writer-%v", l.Owner), fmt.Sprintf("lin:procs-%d", w.Procs),
+			fmt.Sprintf("lin:park-us-%d", l.ParkUs), fmt.Sprintf("lin:views-%d", l.Views), fmt.Sprintf("lin:parent-used-%v", l.UseRoot))
+	})
+}
+
+// ---------------------------------------------------------------------------------------------------------------
 // (e) block sync peer polling [thorough]
 
 func TestBlockSyncPolling(t *testing.T) {
